@@ -196,12 +196,13 @@ class C20(Prop):
         # corpus first: witness of the open finding pipeline:false-sync-lock:repeating-payload (found by search on /repo 489c813)
         self.pipeline(ctx, mod, dem, [("2F", "YF03", 11, 0, {"samples": 48000, "sigma_int16": 30, "seed": 381536}, "square", 20)], "corpus")
         self.pipeline(ctx, mod, dem, cases, "release")
-        # input-length alignment: the same short transmission behind leading noise of every length class modulo the block sizes the programs
+        # input-length alignment: the same 20 s transmission (the property speaks of audio of at least 20 s: a 3 s one, used at first, can end
+        # before a receiver that entered badly has recovered - false alarm at seed 7) behind leading noise of every length class modulo the block sizes the programs
         # might read or process in (steps of 32 samples over 384): link report, end-of-stream flag and whole frames must not depend on it
         src = "".join(rng.choice(alph) for _ in range(rng.randrange(1, 10)))
         base = rng.randrange(700, 1100)         # short enough that the receiver is ready for the link setup FRAME itself (not only the LICH)
         cans = list(range(16)); rng.shuffle(cans)
-        align = [(src, "", cans[j % 16], j % 2, {"samples": base + 32 * j, "sigma_int16": 30, "seed": rng.randrange(10 ** 6)}, "noise", 3) for j in range(12 if quick else 48)]
+        align = [(src, "", cans[j % 16], j % 2, {"samples": base + 32 * j, "sigma_int16": 30, "seed": rng.randrange(10 ** 6)}, "noise", 20) for j in range(12 if quick else 48)]
         self.pipeline(ctx, mod, dem, align, "alignment")
         if not quick:
             mods, dems = self.programs(san=True)
